@@ -707,7 +707,7 @@ void utf8_random_strings()
   utf_checker c;
   c.e = "utf8";
   bool env = env_is_utf8();
-  std::uint64_t per = vf::tier<std::uint64_t>(20000, 1000000) / vf::opts().nparts + 1;
+  std::uint64_t per = vf::tier<std::uint64_t>(20000, 3000000) / vf::opts().nparts + 1;
   for (std::uint64_t h = 0; h < per; ++h)
   {
     vf::rng g(vf::seed_for(e, h));
